@@ -100,6 +100,11 @@ pub struct Sc7 {
   pub post: Vec<(usize, Item)>,
   pub del: Del,
   pub after: Vec<(usize, Item)>,
+  /// an endpoint (index into eps, not part of `acts`) created on a surviving participant after the deletion
+  #[serde(default)]
+  pub newcomer: Option<usize>,
+  #[serde(default)]
+  pub newcomer_items: Vec<(usize, Item)>,
 }
 
 pub fn compatible(w: &EpSpec, r: &EpSpec) -> bool {
@@ -255,6 +260,37 @@ pub fn gen_scenario(rng: &mut Rng) -> Sc7 {
     0 => Del::Part(rng.below(nparts as u64) as usize, rng.chance(1, 2)),
     _ => Del::Endpoint(rng.below(n_initial as u64) as usize),
   };
+  // newcomer after the deletion: of the kind that would match what was deleted, on a participant that survives
+  let deleted_part = match &del {
+    Del::Part(p, _) => Some(*p),
+    _ => None,
+  };
+  let survivors: Vec<usize> = (0..nparts).filter(|p| Some(*p) != deleted_part).collect();
+  let mut newcomer = None;
+  let mut newcomer_items = vec![];
+  if !survivors.is_empty() && rng.chance(3, 4) {
+    let part = *rng.pick(&survivors);
+    let want_writer = match &del {
+      Del::Endpoint(i) => !eps[*i].is_writer,
+      Del::Part(..) => rng.chance(1, 2),
+    };
+    let spec = if want_writer {
+      EpSpec { part, is_writer: true, reliable: true, tl: writers_tl, explicit_durability: true, depth: None }
+    } else {
+      EpSpec { part, is_writer: false, reliable: true, tl: false, explicit_durability: true, depth: None }
+    };
+    eps.push(spec);
+    let idx = eps.len() - 1;
+    ig.next_n.push(0);
+    ig.live_keys.push(vec![]);
+    ig.next_key.push(0);
+    newcomer = Some(idx);
+    let k = 2 + rng.below(4);
+    for _ in 0..k {
+      let wi = if want_writer { idx } else { *rng.pick(&writers) };
+      newcomer_items.push((wi, ig.item(rng, wi, with_key, true)));
+    }
+  }
   Sc7 {
     with_key,
     nparts,
@@ -268,6 +304,8 @@ pub fn gen_scenario(rng: &mut Rng) -> Sc7 {
     post,
     del,
     after,
+    newcomer,
+    newcomer_items,
   }
 }
 
@@ -334,6 +372,8 @@ pub struct Out7 {
   pub max_deliver_s: f64,
   pub dropped: u64,
   pub best_effort_order_anomalies: u64,
+  pub newcomers: u64,
+  pub ghost_matches: u64,
 }
 
 fn gb(g: rustdds::GUID) -> [u8; 16] {
@@ -648,9 +688,11 @@ pub fn run_scenario(sc: &Sc7, domain: u16, acc: &mut Acc, tag: &Value, uniq: u64
     max_deliver_s: 0.0,
     dropped: 0,
     best_effort_order_anomalies: 0,
+    newcomers: 0,
+    ghost_matches: 0,
   };
   let replay = json!({"case": tag, "scenario": scenario_json(sc)});
-  let nparts_total = sc.nparts + usize::from(sc.late_new_part);
+  let nparts_total = sc.eps.iter().map(|e| e.part + 1).max().unwrap_or(0).max(sc.nparts + usize::from(sc.late_new_part));
   let mut w = World {
     sc,
     topic_name: format!("vt_c07_{}_{}", std::process::id(), uniq),
@@ -712,7 +754,7 @@ pub fn run_scenario(sc: &Sc7, domain: u16, acc: &mut Acc, tag: &Value, uniq: u64
     }
     w.pump();
   }
-  let initial: Vec<usize> = (0..sc.eps.len()).filter(|i| *i != sc.late).collect();
+  let initial: Vec<usize> = (0..sc.eps.len()).filter(|i| *i != sc.late && Some(*i) != sc.newcomer).collect();
   for &a in &initial {
     for &b in &initial {
       if compatible(&sc.eps[a], &sc.eps[b]) {
@@ -787,7 +829,7 @@ pub fn run_scenario(sc: &Sc7, domain: u16, acc: &mut Acc, tag: &Value, uniq: u64
   if let Err(e) = r {
     abort!(format!("late joiner creation failed: {e}"));
   }
-  let all: Vec<usize> = (0..sc.eps.len()).collect();
+  let all: Vec<usize> = (0..sc.eps.len()).filter(|i| Some(*i) != sc.newcomer).collect();
   let allc = all.clone();
   match w.wait_until(T_MATCH_S, &move |w| w.all_matched(&allc)) {
     Some(s) => out.max_match_s = out.max_match_s.max(s),
@@ -893,6 +935,85 @@ pub fn run_scenario(sc: &Sc7, domain: u16, acc: &mut Acc, tag: &Value, uniq: u64
     violate!(v.0, v.1);
   }
 
+  // ---- F: an endpoint created after the deletion matches the living and never the deleted
+  if let Some(nc) = sc.newcomer {
+    let before_nc: Vec<usize> = w.sent.iter().map(|s| s.len()).collect();
+    let ncp = sc.eps[nc].part;
+    let r = (|| {
+      if w.parts[ncp].dp.is_none() && w.parts[ncp].pending.is_none() {
+        w.start_part(ncp);
+      }
+      if w.parts[ncp].topic.is_none() {
+        w.create_topic(ncp)?;
+      }
+      if w.parts[ncp].sub.is_none() {
+        w.create_pubsub(ncp)?;
+      }
+      w.create_ep(nc)
+    })();
+    if let Err(e) = r {
+      abort!(format!("newcomer creation failed: {e}"));
+    }
+    let everybody: Vec<usize> = (0..sc.eps.len()).collect();
+    let ev = everybody.clone();
+    match w.wait_until(T_MATCH_S, &move |w| w.all_matched(&ev)) {
+      Some(s) => out.max_match_s = out.max_match_s.max(s),
+      None => {
+        let missing = w.missing_matches(&everybody);
+        violate!("C07/match:endpoint-created-after-a-deletion-not-matched-within-bound".to_string(), json!({"bound_s": T_MATCH_S, "missing": missing}));
+      }
+    }
+    w.pump_for(300);
+    // A deleted endpoint whose deletion the newcomer's participant has demonstrably processed (one of its own
+    // endpoints reported the unmatch) must not be matched at all. Where nobody on that participant could observe
+    // the deletion (the dispose may have been lost; the lease then does the job), a match may still appear, but it
+    // has to be taken back within the unmatch bound.
+    let mut ghosts = vec![];
+    for &v in &victims {
+      if w.eps[nc].matched.contains_key(&w.eps[v].guid) {
+        let observed_here = (0..sc.eps.len()).any(|o| o != nc && sc.eps[o].part == sc.eps[nc].part && w.eps[o].unmatched.contains_key(&w.eps[v].guid));
+        if observed_here {
+          violate!(
+            format!("C07/unmatch:endpoint-created-after-the-deletion-matched-with-deleted-{}", if sc.eps[v].is_writer { "writer" } else { "reader" }),
+            json!({"newcomer_ep": nc, "deleted_ep": v, "deletion": format!("{:?}", sc.del), "seconds_after_deletion": t_del.elapsed().as_secs_f64(), "deletion_had_been_observed_by_another_endpoint_of_that_participant": true})
+          );
+        }
+        ghosts.push(v);
+      }
+    }
+    if !ghosts.is_empty() {
+      out.ghost_matches += ghosts.len() as u64;
+      let g = ghosts.clone();
+      if w.wait_until(T_UNMATCH_S, &move |w| g.iter().all(|v| !w.eps[nc].matched.contains_key(&w.eps[*v].guid))).is_none() {
+        let v = *ghosts.iter().find(|v| w.eps[nc].matched.contains_key(&w.eps[**v].guid)).unwrap();
+        violate!(
+          format!("C07/unmatch:endpoint-created-after-the-deletion-stays-matched-with-deleted-{}", if sc.eps[v].is_writer { "writer" } else { "reader" }),
+          json!({"newcomer_ep": nc, "deleted_ep": v, "deletion": format!("{:?}", sc.del), "bound_s": T_UNMATCH_S})
+        );
+      }
+    }
+    out.newcomers += 1;
+    for a in 0..sc.eps.len() {
+      for b in 0..sc.eps.len() {
+        if (a == nc || b == nc) && compatible(&sc.eps[a], &sc.eps[b]) && w.alive(a) && w.alive(b) {
+          pre_match.insert((a, b), before_nc[a]);
+        }
+      }
+    }
+    for (i, it) in &sc.newcomer_items {
+      if !w.alive(*i) {
+        continue;
+      }
+      if let Err(e) = w.write_item(*i, it) {
+        abort!(format!("newcomer-phase write failed: {e}"));
+      }
+      w.pump();
+    }
+    if let Err(v) = sync_point(&mut w, sc, &everybody, &pre_match, "after-newcomer", &mut out) {
+      violate!(v.0, v.1);
+    }
+  }
+
   // ---- final: whole-history rules for every pair
   if let Err(v) = final_rules(&w, sc, &pre_match, &mut out) {
     violate!(v.0, v.1);
@@ -983,16 +1104,14 @@ fn sync_point(w: &mut World, sc: &Sc7, among: &[usize], pre_match: &BTreeMap<(us
     None => {
       let (a, b, missing) = check(w).unwrap_or((0, 0, vec![]));
       let items: Vec<Value> = missing.iter().take(6).map(|i| json!({"index_in_writer_stream": i, "item": w.sent[a][*i].item})).collect();
-      // an earlier reader of the same writer on the same participant shares the TopicCache with this one
-      let earlier_sibling = (0..sc.eps.len()).any(|o| {
-        o != b && !sc.eps[o].is_writer && sc.eps[o].part == sc.eps[b].part && compatible(&sc.eps[a], &sc.eps[o]) && w.eps[o].create_started.zip(w.eps[b].create_started).map_or(false, |(x, y)| x < y)
-      });
+      // another reader of the same writer on the same participant shares the TopicCache (read pointers, reliability marker) with this one
+      let sibling = (0..sc.eps.len()).any(|o| o != b && !sc.eps[o].is_writer && sc.eps[o].part == sc.eps[b].part && compatible(&sc.eps[a], &sc.eps[o]) && w.eps[o].create_started.is_some());
       let is_history = missing.iter().any(|i| *i < pre_match[&(a, b)]);
       let kind = if is_history && sc.eps[a].depth.is_none() {
         format!(
           "retained-history-not-delivered-to-transient-local-{}{}",
           if b == sc.late { "late-joiner" } else { "reader" },
-          if earlier_sibling { ":participant-already-hosts-a-reader-of-that-writer" } else { "" }
+          if sibling { ":participant-hosts-another-reader-of-that-writer" } else { "" }
         )
       } else if sc.eps[a].depth.is_some() {
         "keep-last-tail-not-delivered".to_string()
@@ -1010,9 +1129,10 @@ fn sync_point(w: &mut World, sc: &Sc7, among: &[usize], pre_match: &BTreeMap<(us
 
 fn final_rules(w: &World, sc: &Sc7, pre_match: &BTreeMap<(usize, usize), usize>, out: &mut Out7) -> Result<(), (String, Value)> {
   let guid_to_ep: BTreeMap<[u8; 16], usize> = w.eps.iter().enumerate().filter(|(_, e)| e.guid != [0; 16]).map(|(i, e)| (e.guid, i)).collect();
-  // (writer ep, index in its stream) -> first time any reader took it
+  // (writer ep, index in its stream) -> first time any reader took it; and the same per participant of the taker
   let mut first_seen: BTreeMap<(usize, usize), Instant> = BTreeMap::new();
-  for e in w.eps.iter() {
+  let mut first_seen_on: BTreeMap<(usize, usize, usize), Instant> = BTreeMap::new();
+  for (o, e) in w.eps.iter().enumerate() {
     for (wg, got) in &e.recv {
       if let Some(&a) = guid_to_ep.get(wg) {
         for (g, t) in got {
@@ -1021,11 +1141,28 @@ fn final_rules(w: &World, sc: &Sc7, pre_match: &BTreeMap<(usize, usize), usize>,
             if *t < *x {
               *x = *t;
             }
+            let y = first_seen_on.entry((sc.eps[o].part, a, idx)).or_insert(*t);
+            if *t < *y {
+              *y = *t;
+            }
           }
         }
       }
     }
   }
+  // "the sample was there before reader b existed", decided on evidence only:
+  //  - b's participant hosts another reader of that writer (they share one TopicCache, and what is in flight to the
+  //    sibling lands there): the sibling had taken it before b's creation began;
+  //  - otherwise (only a transmission to b itself can bring it): some reader anywhere had taken it before b's
+  //    creation began, or write() had returned more than 5 s before (write() only queues the sample for the event loop)
+  let earlier = |a: usize, idx: usize, b: usize, tc: Instant| -> bool {
+    let sibling = (0..sc.eps.len()).any(|o| o != b && !sc.eps[o].is_writer && sc.eps[o].part == sc.eps[b].part && compatible(&sc.eps[a], &sc.eps[o]) && w.eps[o].create_started.is_some());
+    if sibling {
+      first_seen_on.get(&(sc.eps[b].part, a, idx)).map_or(false, |t| *t < tc)
+    } else {
+      first_seen.get(&(a, idx)).map_or(false, |t| *t < tc) || w.sent[a][idx].t_end + StdDuration::from_secs(5) < tc
+    }
+  };
   for (b, e) in w.eps.iter().enumerate() {
     if sc.eps[b].is_writer {
       continue;
@@ -1072,9 +1209,7 @@ fn final_rules(w: &World, sc: &Sc7, pre_match: &BTreeMap<(usize, usize), usize>,
         // or write() had returned more than 5 s before that (write() only queues the sample for the event loop)
         if !sc.eps[b].tl {
           if let Some(tc) = e.create_started {
-            let seen_elsewhere_before = first_seen.get(&(a, idx)).map_or(false, |t| *t < tc);
-            let long_before = sent[idx].t_end + StdDuration::from_secs(5) < tc;
-            if seen_elsewhere_before || long_before {
+            if earlier(a, idx, b, tc) {
               let tl_sibling = (0..sc.eps.len()).any(|o| o != b && sc.eps[o].part == sc.eps[b].part && sc.eps[o].tl && compatible(&sc.eps[a], &sc.eps[o]));
               let same_part = sc.eps[a].part == sc.eps[b].part;
               return Err((
@@ -1086,7 +1221,7 @@ fn final_rules(w: &World, sc: &Sc7, pre_match: &BTreeMap<(usize, usize), usize>,
                     format!("{}writer-{}", if same_part { "same-participant-" } else { "" }, if sc.eps[a].tl { "transient-local" } else if sc.eps[a].explicit_durability { "volatile" } else { "default-durability" })
                   }
                 ),
-                json!({"reader_ep": b, "writer_ep": a, "index_in_writer_stream": idx, "item": sent[idx].item, "taken_by_another_reader_before_creation": seen_elsewhere_before,
+                json!({"reader_ep": b, "writer_ep": a, "index_in_writer_stream": idx, "item": sent[idx].item, "taken_by_a_reader_sharing_its_cache_or_anywhere_before_creation": true,
                        "write_completed_before_reader_creation_s": tc.duration_since(sent[idx].t_end).as_secs_f64(), "reader_is_late_joiner": b == sc.late, "arrived_after_creation_s": t_got.duration_since(tc).as_secs_f64()}),
               ));
             }
@@ -1101,7 +1236,7 @@ fn final_rules(w: &World, sc: &Sc7, pre_match: &BTreeMap<(usize, usize), usize>,
       if let Some(tc) = e.create_started {
         for a in 0..sc.eps.len() {
           if compatible(&sc.eps[a], &sc.eps[b]) {
-            out.volatile_withheld += w.sent[a].iter().enumerate().filter(|(i, s)| first_seen.get(&(a, *i)).map_or(false, |t| *t < tc) || s.t_end + StdDuration::from_secs(5) < tc).count() as u64;
+            out.volatile_withheld += (0..w.sent[a].len()).filter(|i| earlier(a, *i, b, tc)).count() as u64;
           }
         }
       }
